@@ -1,7 +1,7 @@
 From Coq Require Import Extraction ExtrOcamlBasic.
-From PT Require Import Model.Base Model.Stack Model.Texpr Model.Sem Model.Tracker Model.Tok Model.Tokens Model.Aparse Model.Ast Model.PegSpec Model.Translate Model.Wf Model.Report.
+From PT Require Import Model.Base Model.Stack Model.Texpr Model.Sem Model.Tracker Model.Tok Model.Tokens Model.Aparse Model.Ast Model.PegSpec Model.Translate Model.Wf Model.Report Model.Lines Model.ReportHead.
 Extraction Language OCaml.
 Set Extraction Output Directory ".".
 Extraction "sem_model.ml" peg_entry peg p_call p_skip builtin_texpr aparse tparse tcheck try_parse try_check try_parse_partial try_check_partial
   run_tracker tokens st0 inp_of_str inp_of_pos inp_of_span i_start sop_run stack_new
-  encode dec1 is_boundary wf_cert infer_cert fuel_bound report.
+  encode dec1 is_boundary wf_cert infer_cert fuel_bound report head_line line_col.
